@@ -8,6 +8,7 @@ import z3
 from .core import *
 from .models import arc, sort_model, strip
 
+BASE_DAY = 146097      # 0400-01-01 in rapid_time's day count (one full 400-year cycle after 0000-01-01): keeps times away from the calendar's origin
 NV = {'StartDepot': 0, 'Service': 1, 'Maintenance': 2, 'EndDepot': 3}
 KIND = {v: k for k, v in NV.items()}
 def S(name, **kw):
@@ -124,8 +125,8 @@ def build(ex, spec):
             lv = sym('seg%d_limit' % i, 'u32', t.get('limit_max', 3)); limit, present = sym_option(ex, 'seg%d_limit' % i, Scalar(lv, 'u32')); linfo = (present, lv)
         elif lim is None: limit = opt_none(); linfo = (z3.BoolVal(False), z3.IntVal(0))
         else: limit = some(bv(lim, 'u32')); linfo = (z3.BoolVal(True), z3.IntVal(lim))
-        arr = ex.call('<DateTime as Add<Duration>>::add', [dt_point(0, dep), dur(du)])
-        st = S('ServiceTrip', id=StrVal('trip%d' % i), vehicle_type=vtidx(vt), origin=station(o), destination=station(d), departure=dt_point(0, dep),
+        arr = ex.call('<DateTime as Add<Duration>>::add', [dt_point(BASE_DAY, dep), dur(du)])
+        st = S('ServiceTrip', id=StrVal('trip%d' % i), vehicle_type=vtidx(vt), origin=station(o), destination=station(d), departure=dt_point(BASE_DAY, dep),
                arrival=arr, distance=dist(dm), passengers=Scalar(_c(px), 'u32'), seated=Scalar(_c(se), 'u32'), maximal_formation_count=limit)
         ni = nidx('Service', i)
         nodes.entries.append((ni, Cell(Agg('Node', 1, [tup(ni, st)]))))
@@ -140,8 +141,8 @@ def build(ex, spec):
         i = counter; counter += 1
         l = sym('mloc%d' % i, 'u16', nloc - 1); s = sym('mstart%d' % i, 'u32', spec.tmax - 1); du = sym('mdur%d' % i, 'u64', spec.dmax, lo=1)
         tc = sym('tracks%d' % i, 'u32', spec.trackmax)
-        end = ex.call('<DateTime as Add<Duration>>::add', [dt_point(0, s), dur(du)])
-        ms = S('MaintenanceSlot', id=StrVal('maint%d' % i), location=station(l), start=dt_point(0, s), end=end, track_count=Scalar(tc, 'u32'))
+        end = ex.call('<DateTime as Add<Duration>>::add', [dt_point(BASE_DAY, s), dur(du)])
+        ms = S('MaintenanceSlot', id=StrVal('maint%d' % i), location=station(l), start=dt_point(BASE_DAY, s), end=end, track_count=Scalar(tc, 'u32'))
         ni = nidx('Maintenance', i)
         nodes.entries.append((ni, Cell(Agg('Node', 2, [tup(ni, ms)]))))
         info[i] = dict(kind='Maintenance', n=i, idx=ni, sloc=l, eloc=l, st=s, et=s + du, dur=du, tracks=tc, id='maint%d' % i, dist=z3.IntVal(0))
@@ -232,7 +233,7 @@ def to_json(net, model):
         if z3.is_true(v): return True
         if z3.is_false(v): return False
         raise RuntimeError('non-concrete model value for %s' % e)
-    def iso(sec): return '0000-01-%02dT%02d:%02d:%02d' % (1 + sec // 86400, (sec % 86400) // 3600, (sec % 3600) // 60, sec % 60)
+    def iso(sec): return '0400-01-%02dT%02d:%02d:%02d' % (1 + sec // 86400, (sec % 86400) // 3600, (sec % 3600) // 60, sec % 60)
     js = {}
     js['vehicleTypes'] = []
     for i, t in enumerate(net.types):
